@@ -92,13 +92,15 @@ CLAIMED = {
             "EG/Props/C10Load.lean): C10_load_roundtrip — the stack machine of the unpickler on the abstract opcodes, run on the pickler's stream for ANY heap, depth and root, leaves the image of the root "
             "and a heap in which every pickled object is rebuilt with its kind and its ORDERED before/after children, one new object per original (shared stays shared, distinct stays distinct), the pickled set "
             "being closed under children; cycles through instance state and tuples reachable from their own elements (the D10 shape) included; hypothesis NoReentry: no POP in the stream (no reduce met again "
-            "while its own arguments are being saved); C10_nr_load_roundtrip for the queue machine's own stream. Soft tie of the loader model: the graph it builds vs the abstract heap of the copy pickle really "
+            "while its own arguments are being saved) in the RECURSIVE pickler's stream; for the queue machine's OWN stream (EG/Proofs/PickleSim.lean, EG/Props/C10Sim.lean): C10_normalize_loads_alike "
+            "(the unpickler on any stream and on its normal form: same result up to an injective renaming of addresses — Build1,Pop,Get only leaves an unreachable object behind) and "
+            "C10_nr_load_roundtrip_full (the stream the queue machine writes, POP for re-entered tuples included, loads to the isomorphic heap). Soft tie of the loader model: the graph it builds vs the abstract heap of the copy pickle really "
             "loads (evidence: pickle_layers.loader_tie). Tie: the real pickler is "
             "sub-classed in the harness, the abstract heap is EXTRACTED from each real run and the real save/memoize/POP+GET event sequence is compared with the Lean machine; streams are compared "
             "with dill.dumps; copies are loaded with pickle and dill (same process, fresh interpreter, caching on/off either side, protocols 0-5) and compared field by field incl. sharing; "
             "chains far deeper than the recursion limit are serialised under a lowered limit.",
-            "PARTIAL: byte-level faithfulness (opcode encodings, framing), the real loader's agreement with the abstract unpickler, and the stack-equivalence behind `normalize` (POP,GET vs POP_MARK,GET for a "
-            "re-entered tuple in the queue machine's own stream) are trusted and only tested. "
+            "PARTIAL: byte-level faithfulness (opcode encodings, framing) and the real loader's agreement with the abstract unpickler are trusted and only tested; a NON-tuple object met again while the arguments "
+            "of its own reduce are being saved (hypothesis NoReentry) is outside the loading theorems. "
             "RecursionError is a runtime limit: exercised, not provable.", "DESIGN.md 3/C10"),
     "C11": ("Lean 4 proof: effect of the builder loops (members = first-mention order, one link per entry in input order, frame, validation first) via loop invariants over the reference model; exhaustive small inputs + random correspondence",
             "Theorems C11_dict_builds / C11_matrix_builds (structure `Built`: new universe, members = dedupKeepFirst of the mention sequence / side array, exactly one new link per listed pair or truthy cell, "
